@@ -320,7 +320,7 @@ func crashPoints(r *run.R) {
 		}
 		st := stats{}
 		o := runHistory(h, cfg, st)
-		r.Eval(1)
+		r.Eval(1 + o.Images) // the history plus one reopened datastore image per crash point
 		a.merge(st)
 		if o.Unexpect != "" {
 			r.Inconclusive(caseID, o.Unexpect)
